@@ -193,6 +193,15 @@ def _minit(spec, j):
       idx = rng.randint(0, len(X), size=(int(rng.randint(d + 3, 30)),
                                          int(rng.choice([2, 3, 4]))))
       inp = X[idx]                      # duplicated points by construction
+      if t % 4 == 1:
+        # the same point written with 0.0 and with -0.0: one point, two byte
+        # patterns
+        k0 = int(rng.randint(d))
+        inp = np.array(inp, copy=True)
+        same = np.all(inp == inp[0, 0], axis=-1)
+        inp[same, k0] = 0.0
+        inp[-1, -1] = inp[0, 0]
+        inp[-1, -1, k0] = -0.0
     else:
       inp = X
     mode = t % 8
